@@ -29,7 +29,8 @@ UNIT_HARNESS = {
     'hdlc': ('blocks_harness.rs', 'hdlc'),
     'sync': ('blocks_harness.rs', 'sync'),
     # floating-point blocks: differential chunk-independence (roomy run vs adversarial drip-feed run), tags one-to-one
-    'dsp': ('dsp_harness.rs', 'zc,zcclk,symsync,ssclk,fftfilt,fftfiltc,firf,hilbert,iir1,slicer,qdemod'),
+    'dsp': ('dsp_harness.rs', 'zc,zcclk,symsync,ssclk,fftfilt,fftfiltc,fftstream,firf,hilbert,iir1,slicer,qdemod'),
+    'fftstream': ('dsp_harness.rs', 'fftstream'),
     'zc': ('dsp_harness.rs', 'zc,zcclk'),
     'symsync': ('dsp_harness.rs', 'symsync,ssclk'),
     'fftfilter': ('dsp_harness.rs', 'fftfilt,fftfiltc'),
@@ -44,6 +45,7 @@ UNIT_HARNESS = {
     'il2p': ('io_harness.rs', 'il2p'),
     'stream': ('io_harness.rs', 'stream'),
     'totext': ('io_harness.rs', 'totext'),
+    'misc': ('io_harness.rs', 'misc'),
     'au': ('io_harness.rs', 'audec'),
     'sigmf': ('io_harness.rs', 'sigmf'),
     'io': ('io_harness.rs', 'il2p,s2pdu,wpcr'),
